@@ -8,6 +8,19 @@ ID = "C05"
 PROPS_FILE = "Props/C05.v"
 COQ_TARGETS = ["Harness/H05.vo"]
 ALLOWED_AXIOMS = []
+# second tie (translator): coq/Gen/Core.v is regenerated from the source text of C.REPO on every run and
+# coq/Tie/T05.v proves generated definition = hand model (harness/translate/py2coq_core.py)
+EXTRA_PROPS = ["Tie/T05.v"]
+
+
+def prebuild(ctx):
+    import os
+    import sys
+    sys.path.insert(0, os.path.join(C.VERIF, "harness", "translate"))
+    import py2coq_core
+    py2coq_core.prebuild(ctx, C, ["EpsilonDominance.same_box", "EpsilonDominance.compare", "Archive.add"])
+
+
 META = {
     "level_text": "Machine-checked proof (Coq) about a literal, exception-aware model over exact rationals of EpsilonDominance.compare/same_box, "
                   "Archive.add and EpsilonBoxArchive.add: compare = violation class, then Pareto on box indices floor(adj/eps) (last epsilon reused), "
